@@ -1018,7 +1018,7 @@ func TestVerif_C17(t *testing.T) {
 	logrus.SetOutput(c17Discard{})
 	vk.Run(t, "C17", func(c *vk.Ctx) {
 		c.Rule("states = (mocknetlink kernel: interfaces with index/oper state + main routing table, routes other software owns, desired routes per class/interface, RouteTable's internal view: inputs, conflict-resolution result, delta tracker desired/dataplane, interface maps, rescan set, resync flag, grace info, netlink connection state) over 3 CIDRs (two of them claimed by two route classes each), classes LocalWorkload (cali1, cali2), VXLANTunnel (vxlan.calico), BlackholeVXLAN (no interface), 6 starting kernels (bare / interfaces+foreign routes / +leftover Felix routes / with a desired state, not yet or already applied); " +
-			"transitions = one API call, an interface going down/up/away/re-created with a new index in the kernel (with or without the monitor telling Felix), the late notification, a route edit by other software (6 kinds), QueueResync, restart, or Apply with at most N injected netlink failures (fault points = every netlink call of that Apply x its failure modes, from a dry run); " +
+			"transitions = one API call, an interface going down/up/away/re-created with a new index in the kernel (with or without the monitor telling Felix), the late notification, a route edit by other software (6 kinds), QueueResync, restart, or Apply with at most N injected netlink failures (fault points = every netlink call of that Apply x its failure modes, from a dry run; for every route dump additionally: the dump is flagged interrupted (EINTR) and, before Felix retries it, another actor deletes one of the routes just reported — each in turn — or adds a route); " +
 			"every state is followed by fault-free probe Applies without and with resync; non-trivial = Apply that wrote routes or hit a fault")
 		c.Assume("the kernel behaves like felix/netlinkshim/mocknetlink, extended in the harness with: RouteReplace through a missing/down interface is refused (ENODEV/ENETDOWN); routes of an interface that goes down or is deleted are dropped by the kernel")
 		c.Assume("other software does not take over, behind Felix's back, a route key at which Felix currently believes one of its own routes to sit (Felix deletes and replaces by key); such a newcomer is exempt from the 'foreign routes untouched' oracle until Felix has re-read the table. (Route edits by other software after start-up go beyond the property's quantifier anyway.)")
